@@ -1,0 +1,25 @@
+//go:build verif
+
+package bloom
+
+import "sync/atomic"
+
+// verifAddHook is the observer installed by the runtime-monitoring harness.
+var verifAddHook atomic.Pointer[func(f *Filter, data []byte)]
+
+// VerifSetAddHook installs (or, with nil, removes) a function that is called
+// for every element inserted into any filter, with the filter lock held.  It
+// is compiled only with -tags verif.
+func VerifSetAddHook(h func(f *Filter, data []byte)) {
+	if h == nil {
+		verifAddHook.Store(nil)
+		return
+	}
+	verifAddHook.Store(&h)
+}
+
+func verifOnAdd(f *Filter, data []byte) {
+	if h := verifAddHook.Load(); h != nil {
+		(*h)(f, data)
+	}
+}
